@@ -5,6 +5,7 @@ package peering
 import (
 	"net"
 
+	"github.com/mycoria/mycoria/mgr"
 	"github.com/mycoria/mycoria/state"
 )
 
@@ -22,9 +23,20 @@ func VerifConsts() map[string]uint64 {
 // workers) on the given connection and returns the link.
 func (p *Peering) VerifSetupLink(conn net.Conn, outgoing bool) (Link, error) {
 	link := newLinkBase(conn, nil, outgoing, p)
-	l, err := link.handleSetup(p.mgr)
-	if err != nil {
-		return nil, err
+	var (
+		l        *LinkBase
+		setupErr error
+	)
+	// As the link setup worker: inside the manager, so that a panic is recovered and reported.
+	workerErr := p.mgr.Do("verif link setup", func(w *mgr.WorkerCtx) error {
+		l, setupErr = link.handleSetup(p.mgr)
+		return nil
+	})
+	switch {
+	case workerErr != nil:
+		return nil, workerErr
+	case setupErr != nil:
+		return nil, setupErr
 	}
 	return l, nil
 }
